@@ -778,6 +778,130 @@ func transitionFault(t *testing.T, phase string, observe, hb time.Duration, a, w
 }
 
 // ---------------------------------------------------------------------------------------------
+// a write refused after the lifecycler's function has run (the store evaluates the function, then the
+// conditional write fails for good): whatever the lifecycler does about it - give up, so that its process
+// is restarted, or carry on - the instance ends up active with its full token count
+
+func TestRefusedWritesEnum(t *testing.T) {
+	var rc struct {
+		Basic     bool   `json:"basic"`
+		Observe   string `json:"observe"`
+		Heartbeat string `json:"heartbeat"`
+		First     int    `json:"first_refused_write"`
+		N         int    `json:"refused_writes"`
+	}
+	if vx.ReplayCase("TestRefusedWritesEnum", &rc) {
+		ob, _ := time.ParseDuration(rc.Observe)
+		hb, _ := time.ParseDuration(rc.Heartbeat)
+		if failure, _, _ := refusedWrites(t, rc.Basic, ob, hb, rc.First, rc.N); failure != "" {
+			t.Fatalf("replay: %s", failure)
+		}
+		return
+	}
+	idx := 0
+	for _, basic := range []bool{false, true} {
+		for _, observe := range []time.Duration{0, 2 * time.Second} {
+			for _, hb := range []time.Duration{2 * time.Second, 5 * time.Second} {
+				for a := 1; a <= 5; a++ {
+					for w := 1; w <= 2; w++ {
+						idx++
+						if !vx.Mine(idx) {
+							continue
+						}
+						failure, refused, gaveUp := refusedWrites(t, basic, observe, hb, a, w)
+						vx.Eval(1)
+						if refused > 0 {
+							vx.NonTrivial(vx.FP("refused-write", basic, observe, hb, a, w))
+							vx.Class("histories_with_a_write_refused_after_its_function_ran", 1)
+						}
+						if gaveUp {
+							vx.Class("lifecycler_gave_up_and_was_restarted", 1)
+						}
+						if failure != "" {
+							vx.Failf(t, "TestRefusedWritesEnum", map[string]any{"basic": basic, "observe": observe.String(), "heartbeat": hb.String(), "first_refused_write": a, "refused_writes": w},
+								"basic=%v observe=%v hb=%v writes [%d,%d) refused after their function ran: %s", basic, observe, hb, a, a+w, failure)
+						}
+					}
+				}
+			}
+		}
+	}
+	vx.Exhaustive("refused writes: both lifecyclers x observe 0/2 s x heartbeat 2/5 s x windows of 1..2 writes, starting at the 1st..5th write of the process, refused after the function was evaluated")
+}
+
+func refusedWrites(t *testing.T, basic bool, observe, hb time.Duration, a, w int) (failure string, refused int, gaveUp bool) {
+	vx.Bubble(t, func(b *vx.B) {
+		store, closer := consul.NewInMemoryClient(ring.GetCodec(), log.NewNopLogger(), nil)
+		b.Cleanup(func() { _ = closer.Close() })
+		ctx := context.Background()
+		// a static member holding tokens of the generator's space
+		_ = store.CAS(ctx, lcx.RingKey, func(interface{}) (interface{}, bool, error) {
+			d := ring.NewDesc()
+			d.AddIngester("static", "static:1", "z", []uint32{1, 5, 9, 13}, ring.ACTIVE, time.Now(), false, time.Time{}, nil)
+			return d, true, nil
+		})
+		f := fakekv.NewFaulty(store)
+		f.RefuseFrom, f.RefuseTo = a, a+w
+		cfg := lcx.Cfg{ID: "ing-1", Basic: basic, NumTokens: 4, JoinAfter: time.Second, Observe: observe, HBPeriod: hb, GenSeed: 5, GenSpace: 32, Unregister: false, RegState: ring.ACTIVE}
+		l, err := lcx.New(cfg, f)
+		if err != nil {
+			failure = err.Error()
+			return
+		}
+		cur := l
+		b.Cleanup(func() {
+			cur.Svc.StopAsync()
+			time.Sleep(30 * time.Second)
+		})
+		// keep the static member's heartbeat fresh-looking is not needed: nothing here looks at health
+		_ = cur.Svc.StartAsync(ctx)
+		settleFor := time.Second + observe + 3*hb + 5*time.Second
+		time.Sleep(settleFor)
+		vx.Wait()
+		refused = f.Refused
+		if st := cur.Svc.State(); st == services.Failed || st == services.Terminated {
+			// the lifecycler gave up: its process ends and is started again with the same identity
+			gaveUp = true
+			f2 := fakekv.NewFaulty(store)
+			l2, err := lcx.New(cfg, f2)
+			if err != nil {
+				failure = err.Error()
+				return
+			}
+			cur = l2
+			_ = cur.Svc.StartAsync(ctx)
+			time.Sleep(settleFor)
+			vx.Wait()
+		}
+		if st := cur.Svc.State(); st != services.Running {
+			failure = fmt.Sprintf("the lifecycler service is %v (%v)", st, cur.Svc.FailureCase())
+			return
+		}
+		e, ok := entry(store, "ing-1")
+		if !ok {
+			failure = "the instance has no ring entry"
+			return
+		}
+		if e.State != ring.ACTIVE || len(e.Tokens) != 4 {
+			failure = fmt.Sprintf("%v after the refused writes the ring shows the instance %v with %d tokens %v (the lifecycler reports %v), want ACTIVE with 4 tokens (gave up and was restarted: %v)", settleFor, e.State, len(e.Tokens), e.Tokens, cur.State(), gaveUp)
+			return
+		}
+		seen := map[uint32]bool{1: true, 5: true, 9: true, 13: true}
+		for i, tk := range e.Tokens {
+			if seen[tk] || (i > 0 && e.Tokens[i-1] >= tk) {
+				failure = fmt.Sprintf("tokens %v are not sorted, distinct and disjoint from the static member's [1 5 9 13]", e.Tokens)
+				return
+			}
+			seen[tk] = true
+		}
+		if cur.State() != ring.ACTIVE {
+			failure = fmt.Sprintf("the lifecycler reports %v, the ring ACTIVE", cur.State())
+		}
+	})
+	return failure, refused, gaveUp
+}
+
+// ---------------------------------------------------------------------------------------------
 // the tokens file follows the tokens: a token replaced while joining (conflict resolution gave it to
 // somebody else) is replaced in the file too, so that a later restart without a ring entry resumes
 // with the tokens the instance really held
